@@ -814,6 +814,19 @@ class NodeFor:
         self.what = what
 
     def evaluate(self, environment):
+        # the loop variables live in the current scope while the loop runs
+        # and are removed afterwards; variables of that scope which have
+        # the same names get their values back instead of being lost
+        shadowed = {
+            name: environment.map[name]
+            for name in self.identifiers if name in environment.map
+        }
+        try:
+            return self.evaluateLoop(environment)
+        finally:
+            environment.map.update(shadowed)
+
+    def evaluateLoop(self, environment):
         lst = self.expression.evaluate(environment)
         if lst.isInput():
             input_ = lst
